@@ -1,21 +1,24 @@
 (* C16 — property theorems only. Statements are pinned by vp/check.py.
 
    S = PREC = 10^34.  `ref_exp_cmp max_n x bound cmp` is the model of
-   FixedPrecision::exp_cmp (self.data = x, compare.data = cmp).
+   FixedPrecision::exp_cmp (self.data = x, compare.data = cmp) as the code is after
+   /repo commit f6d913e7 (error_term = |error| * bound).
 
-   FULL STATEMENT (DESIGN.md App. A) — FALSE for the code as it is, see exp_cmp_gt_refuted:
+   FULL STATEMENT (DESIGN.md App. A) — FALSE for the code, see exp_cmp_gt_refuted:
      forall max_n x bound cmp, 0 <= x -> exp (IZR x / S) <= IZR bound ->
        (estimation r = GT -> IZR cmp / S > exp (IZR x / S)) /\
        (estimation r = LT -> IZR cmp / S < exp (IZR x / S)).
-   What holds, for every max_n, every real argument x >= 0, every compare value:
-     - LT is always right (exp_cmp_lt_sound; no hypothesis on bound at all);
-     - GT is right up to bound*(iterations+bound) units of the last (34th) decimal
-       (exp_cmp_gt_margin), hence the full statement holds for every compare value
-       outside that sliver below e^x (exp_cmp_sound_outside_margin);
-     - inside the sliver GT can be wrong (exp_cmp_gt_refuted): each fixed-point
-       multiplication/division rounds the Taylor term DOWN, and `upper = rop + bound*error`
-       is built from the rounded-down values, so it can lie below e^x when the
-       next term is < 1 ulp. *)
+   What holds, for every max_n, every argument x, every compare value:
+     - x >= 0: LT is always right (exp_cmp_lt_sound; no hypothesis on bound at all);
+     - x >= 0: GT is right up to M = bound*(iterations+bound) units of the last (34th)
+       decimal (exp_cmp_gt_margin), hence the full statement holds for every compare
+       value outside that sliver below e^x (exp_cmp_sound_outside_margin);
+     - inside the sliver GT can be wrong (exp_cmp_gt_refuted; KNOWN-FINDING
+       gt-wrong-within-truncation-margin): each fixed-point multiplication/division rounds
+       the Taylor term DOWN, and `upper = rop + bound*error` is built from the rounded-down
+       values, so it can lie below e^x when the next term is < 1 ulp;
+     - x of either sign, bound >= e^|x|: both answers are right up to the same M
+       (exp_cmp_sound_margin_all_x, exp_cmp_sound_outside_margin_all_x). *)
 From Coq Require Import Reals.
 From PV Require Import Lib.Base C16.Model C16.Proofs C16.ProofsAll.
 Open Scope Z_scope.
